@@ -326,6 +326,22 @@ func ruleC03Pair(c *ctx.Ctx, r *core.Reporter) {
 				}
 				return true
 			})
+			// no entry may be skipped: the loop body has no continue/break/return and the only
+			// condition around the splice is the index test
+			skips := ""
+			rm.Walk(func(n *ctx.JSNode) bool {
+				if n.Is("ContinueStatement", "BreakStatement") || (n.Is("ReturnStatement") && n.EnclosingFunc() == rm) {
+					skips = n.Type + " at " + n.Pos()
+				}
+				if n.Is("IfStatement") {
+					t := squash(n.N("test").Src())
+					if !(strings.Contains(t, "!==-1") || strings.Contains(t, ">=0") || strings.Contains(t, ">-1")) {
+						skips = "condition `" + strings.TrimSpace(n.N("test").Src()) + "` at " + n.Pos()
+					}
+				}
+				return true
+			})
+			r.Check(skips == "", "removeFromQueues:no-entry-skipped", rm.Pos(), "every registered entry is looked up in its queue: no continue/break/early return or extra condition in the removal loop ("+skips+")")
 			ok := loops && idxOf && spl
 			r.Check(ok, "removeFromQueues:all-entries", rm.Pos(), "removeFromQueues loops over all entries and splices the registered closure out of its queue")
 		}
